@@ -1,5 +1,14 @@
-//! Conformance harness binary: C24 parsers, C29 count bounds.
+//! Conformance harness binary `vh-dec`: C24 (public-input parsers, Parsers.tla) and C29 (per-layer
+//! proof-count bounds, Counts.tla).  Subcommands read ndjson cases and write ndjson observations; the
+//! verdict is decided in Python against the model's expectation.
+mod alloc;
+mod counts;
+mod parsers;
+
 use anyhow::{anyhow, Result};
+
+#[global_allocator]
+static GLOBAL: alloc::Counting = alloc::Counting;
 
 pub fn seed() -> u64 {
     std::env::var("VERIF_SEED").ok().and_then(|s| s.parse().ok()).unwrap_or(1)
@@ -8,7 +17,38 @@ pub fn seed() -> u64 {
 fn main() -> Result<()> {
     let args: Vec<String> = std::env::args().collect();
     let cmd = args.get(1).map(|s| s.as_str()).unwrap_or("");
+    let need = |n: usize| -> Result<()> {
+        if args.len() < 2 + n { Err(anyhow!("{cmd}: expected {n} arguments")) } else { Ok(()) }
+    };
     match cmd {
+        "parsers-replay" => {
+            need(2)?;
+            parsers::replay(&args[2], &args[3], seed())
+        }
+        "parsers-roundtrip" => {
+            need(2)?;
+            parsers::roundtrip(&args[2], &args[3], seed())
+        }
+        "parsers-record" => {
+            need(2)?;
+            parsers::record(&args[2], &args[3], seed())
+        }
+        "counts-setup" => {
+            need(1)?;
+            counts::setup(&args[2])
+        }
+        "counts-cells" => {
+            need(4)?;
+            counts::cells(&args[2], &args[3], &args[4], args[5].parse()?)
+        }
+        "counts-arith" => {
+            need(2)?;
+            counts::arith(&args[2], &args[3])
+        }
+        "counts-config" => {
+            need(3)?;
+            counts::config(&args[2], &args[3], &args[4])
+        }
         _ => Err(anyhow!("unknown subcommand {cmd}")),
     }
 }
